@@ -223,8 +223,8 @@ func ruleSweeper(c *Check, rTable, rPrivate, rEffect, rCursor string) {
 	nm := 0
 	for f := range reach {
 		for _, in := range callsIn(f, []string{txnPut, txnDel, curPut, curDel, txnDrop, "(*lmdb.Txn).CreateDBI"}) {
-			if QualName(f) == fnSweepTxn {
-				nm++
+			if QualName(f) == fnSweepTxn || unknownHelper(f, 0) && onlyCalledFromClosure(c.P, f, fnSweepTxn, 0) {
+				nm++ // in the slice body, or in a new helper only the slice body calls
 				continue
 			}
 			c.Bad(rEffect, "mutator:"+QualName(f), "an LMDB mutator is reachable from the sweeper in "+QualName(f), c.P.InstrPos(in), nil)
@@ -526,4 +526,32 @@ func ruleTimestampNoWrap(c *Check, rule string) {
 		c.Ok(rule, name+"/no-wrap", fmt.Sprintf("%d return paths: the signed nanosecond count is converted only where it is known to be ≥ 0; earlier times give 0", n), c.P.Pos(fn.Pos()))
 	}
 	c.Floor(rule, n, 1, "return paths of TimestampFromTime")
+}
+
+// onlyCalledFromClosure: every static call of fn is in the function named
+// owner or in a new helper for which the same holds.
+func onlyCalledFromClosure(p *Program, fn *ssa.Function, owner string, depth int) bool {
+	if depth > 4 {
+		return false
+	}
+	n := 0
+	for _, g := range p.RepoFuncs() {
+		for _, b := range g.Blocks {
+			for _, in := range b.Instrs {
+				ci, ok := in.(ssa.CallInstruction)
+				if !ok || ci.Common().StaticCallee() != fn {
+					continue
+				}
+				n++
+				if QualName(g) == owner {
+					continue
+				}
+				if unknownHelper(g, 0) && onlyCalledFromClosure(p, g, owner, depth+1) {
+					continue
+				}
+				return false
+			}
+		}
+	}
+	return n > 0
 }
